@@ -117,7 +117,21 @@ def ppu_kind(k):
 
 # ---------------------------------------------------------------- atoms
 def rb(rng, n):
-    return bytes(rng.randrange(256) for _ in range(n))
+    """n random bytes; for hashes / ids (n >= 28) one draw in four is a LOOK-ALIKE of an earlier value of the same length
+    (one byte changed: the last, the first, or a random position), so that any shortened, prefixed or otherwise lossy notion of
+    identity (str(), hash(), a cache key) meets two different values it cannot tell apart."""
+    b = bytes(rng.randrange(256) for _ in range(n))
+    if n < 28:
+        return b
+    seen = rng.__dict__.setdefault('_lookalike', {}).setdefault(n, [])
+    if seen and rng.random() < 0.25:
+        old = bytearray(rng.choice(seen))
+        pos = rng.choice([n - 1, 0, rng.randrange(n), rng.randrange(n // 2, n)])
+        old[pos] ^= 1 + rng.randrange(255)
+        b = bytes(old)
+    seen.append(b)
+    del seen[:-6]          # recent values only: the look-alike and its sibling tend to meet in one object
+    return b
 
 
 def rh(rng, n):
@@ -215,7 +229,12 @@ def anchor(rng):
 
 
 def tx_input(rng):
-    return [rh(rng, 32), u16(rng)]
+    i = [rh(rng, 32), u16(rng)]
+    last = rng.__dict__.get('_last_input')
+    if last and rng.random() < 0.3:      # same index as the previous input: only the (possibly look-alike) id differs
+        i[1] = last[1]
+    rng.__dict__['_last_input'] = i
+    return i
 
 
 gaid = tx_input
